@@ -1195,10 +1195,10 @@ Proof.
   cbn [app]. now rewrite !app_nil_r.
 Qed.
 
-(* matching as the store implements it: MQTT 4.7 matching for plain subscriptions; level
-   matching only for shared ones (no 4.7.2-1 exclusion of $-topics for wildcard-led filters) *)
-Definition sub_matches (t : str) (sb : sub) : bool :=
-  if is_empty (s_share sb) then topic_match t (s_filter sb) else lm (split t) (split (s_filter sb)).
+(* matching as the store implements it: MQTT 4.7 matching, with the 4.7.2-1 exclusion of
+   $-topics for wildcard-led filters, for plain and (since getMatchedTopicFilter applies the
+   rule itself) for shared subscriptions alike *)
+Definition sub_matches (t : str) (sb : sub) : bool := topic_match t (s_filter sb).
 
 Lemma nodup_app_disjoint {A} (a b : list A) :
   NoDup a -> NoDup b -> (forall x, In x a -> In x b -> False) -> NoDup (a ++ b).
@@ -1227,8 +1227,8 @@ Proof.
     apply (sp_get_good _ _ _ _ _ Hok) in Hg as [Hg _]. congruence.
   - intros c sb. rewrite in_app_iff, I1, I2. unfold sub_matches, want_client. split.
     + intros [(Hne & Hg & Hlm & _)|(Hg & Htm & _)].
-      * apply is_empty_false in Hne. rewrite Hne. now split.
-      * pose proof (sp_get_good _ _ _ _ _ Hok Hg) as [Hsh _]. rewrite Hsh. cbn [is_empty]. now split.
+      * now split.
+      * pose proof (sp_get_good _ _ _ _ _ Hok Hg) as [Hsh _]. rewrite Hsh. now split.
     + intros [Hg Hm]. destruct (is_empty (s_share sb)) eqn:E.
       * right. apply is_empty_true in E. rewrite E in Hg. split; [exact Hg|]. split; [exact Hm|now left].
       * left. apply is_empty_false in E. split; [exact E|]. split; [exact Hg|]. split; [exact Hm|now left].
@@ -1247,7 +1247,7 @@ Proof.
   split; [unfold d_plain, d_ents; now repeat apply NoDup_filter|].
   intros c sb. unfold d_plain, d_ents. rewrite !filter_In, Hin. unfold is_plain, nl_keep, sub_matches. cbn [fst snd].
   split.
-  - intros [[[Hg Hm] Hk] Hp]. rewrite Hp in Hm. apply is_empty_true in Hp. rewrite Hp in Hg.
+  - intros [[[Hg Hm] Hk] Hp]. apply is_empty_true in Hp. rewrite Hp in Hg.
     split; [exact Hg|]. split; [exact Hm|]. intros [H1 H2]. subst. now rewrite H1, str_eqb_refl in Hk.
   - intros (Hg & Hm & Hn). pose proof (sp_get_good _ _ _ _ _ Hok Hg) as [Hsh _]. rewrite Hsh. cbn [is_empty].
     split; [|reflexivity]. split; [now split|].
@@ -1259,13 +1259,13 @@ Corollary shared_spec src m s ops :
   NoDup (d_shared src m s) /\
   forall c sb, In (c, sb) (d_shared src m s) <->
     s_share sb <> [] /\ sp_get (c, s_share sb, s_filter sb) (spec_run ops) = Some sb /\
-    lm (split (m_topic m)) (split (s_filter sb)) = true /\ ~ (s_nl sb = true /\ c = src).
+    topic_match (m_topic m) (s_filter sb) = true /\ ~ (s_nl sb = true /\ c = src).
 Proof.
   intros Hs Hwf Ht Hnw. destruct (found_spec m s ops Hs Hwf Ht Hnw) as [Hnd Hin].
   split; [unfold d_shared, d_ents; now repeat apply NoDup_filter|].
   intros c sb. unfold d_shared, d_ents. rewrite !filter_In, Hin. unfold is_plain, nl_keep, sub_matches. cbn [fst snd].
   split.
-  - intros [[[Hg Hm] Hk] Hp]. apply negb_true_iff in Hp. rewrite Hp in Hm. apply is_empty_false in Hp.
+  - intros [[[Hg Hm] Hk] Hp]. apply negb_true_iff in Hp. apply is_empty_false in Hp.
     split; [exact Hp|]. split; [exact Hg|]. split; [exact Hm|]. intros [H1 H2]. subst. now rewrite H1, str_eqb_refl in Hk.
   - intros (Hne & Hg & Hm & Hn). apply is_empty_false in Hne. rewrite Hne.
     split; [|reflexivity]. split; [now split|].
@@ -1897,3 +1897,9 @@ Definition ex_events2 : list event :=
   [EConnect 1 (ex_conn ex_A); EConnect 2 (ex_conn ex_B);
    ESend 1 (KSubscribe 1 [] [ex_tq ex_hash 0 false false; ex_tq ex_sh_hash 0 false false])].
 Definition ex_state2 : st := fst (run (st_init (ex_cfg false) no_hooks []) ex_events2).
+(* a third one: a additionally subscribes "$share/g/$SYS/#" (subscription identifier 5) *)
+Definition ex_sh_sys_hash : str := SHARE_PREFIX ++ [103; 47; 36; 83; 89; 83; 47; 35].   (* "$share/g/$SYS/#" *)
+Definition ex_sys_hash : str := [36; 83; 89; 83; 47; 35].                                (* "$SYS/#" *)
+Definition ex_events3 : list event :=
+  ex_events2 ++ [ESend 1 (KSubscribe 2 [PSubId 5] [ex_tq ex_sh_sys_hash 0 false false])].
+Definition ex_state3 : st := fst (run (st_init (ex_cfg false) no_hooks []) ex_events3).
